@@ -36,3 +36,25 @@ claim('C04', 'Lean 4 proofs (adjacent-range check on the stable address sort <->
       'rejection; the sort is a stable permutation. Each run compares the accept/reject verdict of the real CLI with the impl-level '
       'check and with the pairwise spec on generated placements.',
       NOTE)
+
+claim('C06', 'Lean 4 proofs (scope lookup soundness/completeness, definition acceptance) + differential correspondence',
+      'Kernel-checked theorems: a reference resolves only to a definition in the same local region, the same file, or the global '
+      'table (never a register), never to a same-named label of another region or file; a definition is accepted iff the name is no '
+      'keyword, not yet defined in its scope and (local) inside a region; later definitions never change earlier resolutions. Each '
+      'run compares accept/reject and label values (through the image) of the real CLI with the model on multi-file programs that '
+      'reuse names across regions and files.',
+      NOTE + ' Cross-table shadowing lemmas assume predefined names carry no "_"/"." prefix (GlobKinded).')
+
+claim('C02', 'Lean 4 proofs (placement at the zone cursor, reserved = emitted size, label = cursor, least-multiple alignment) + differential correspondence',
+      'Kernel-checked theorems: a line is placed at its zone\'s cursor unless it is an .org/.align, the cursor then sits right behind '
+      'it and no other zone moves (contiguity); the bytes finally emitted number exactly the reserved size; an address label is bound '
+      'to the cursor at its definition; .align yields the least multiple of the page size not below the address; .zerountil reaches '
+      'exactly its target. Each run compares the image (label values observed through data/operands) of the real CLI with the model.',
+      NOTE)
+claim('C05', 'Lean 4 proofs (zone cursor invariant, confinement, zone-relative vs absolute origin, zone declaration rejection, concatenation of stretches) + differential correspondence',
+      'Kernel-checked theorems: every zone keeps start <= cursor <= end+1 and lies inside GLOBAL; every byte line lies inside its '
+      'zone and inside GLOBAL, a line that would not is rejected; a zone-relative .org is offset from the zone start, a bare one is '
+      'absolute; separate stretches of one zone are laid out consecutively whatever other zones do in between; a source-declared zone '
+      'is accepted iff its name is new and it is non-inverted, inside the address width and inside GLOBAL. Each run compares '
+      'accept/reject and image of the real CLI with the model on zone-heavy programs.',
+      NOTE + ' Two predefined zones with the same name: the later one wins (mirrored; outside the property statement).')
